@@ -33,3 +33,6 @@ func VerifFindVerifiedParents(s *CertPool, c *Certificate) ([]int, *Certificate,
 func VerifIsEntrustSPKI(c *Certificate) bool {
 	return bytes.Equal(c.RawSubjectPublicKeyInfo, entrustBrokenSPKI)
 }
+
+// VerifEntrustSPKI returns a copy of the exempted SubjectPublicKeyInfo bytes.
+func VerifEntrustSPKI() []byte { return append([]byte(nil), entrustBrokenSPKI...) }
